@@ -864,7 +864,7 @@ Lemma push_loop_safe n indptr indices degrees damping tol :
 Proof.
   intros Hwf Hdg. induction fuel as [|f IH]; intros scores residuals worklist Hs Hr Hw;
     destruct worklist as [|v rest]; cbn [push_loop]; try discriminate.
-  inversion Hw as [|? ? Hv Hrest]; subst.
+  apply Forall_cons_iff in Hw. destruct Hw as [Hv Hrest].
   rewrite (rd_ok scores v 0%Q) by lia. cbn [kbind].
   rewrite (rd_ok residuals v 0%Q) by lia. cbn [kbind].
   rewrite wr_ok by lia. cbn [kbind].
